@@ -107,6 +107,26 @@ theorem C11_statement_polls_first (cfg : Cfg) (fuel : Nat) (env : Env) (st : Stm
   refine ⟨{ s with ps := { s.ps with polls := s.ps.polls + 1 } }, ?_, rfl, rfl⟩
   simp [Prog.pollP, Bind.bind, Prog.bind, Prog.run, h]
 
+/-- the flag is polled once per attribute, BEFORE the attribute's value is evaluated — for every attribute list that is
+executed, so also for the attributes that an attribute shorthand expands to (the expansion is executed by the same
+function): a run can be interrupted between any two attributes (strict) -/
+theorem C11_attribute_polls_first (cfg : Cfg) (fuel : Nat) (env : Env) (t : Strict.Target) (name : String) (e : Expr)
+    (rest : List AttrE) (s : Prog.MSt SRest) (h : s.ps.cancelAt = some (s.ps.polls + 1)) :
+    ∃ s', Prog.run (Strict.execAttrs cfg fuel env t ((name, e) :: rest)) s =
+        .fail (.err (.base .cancelled "executing attribute")) s' ∧ s'.graph = s.graph ∧ s'.rest = s.rest := by
+  rw [Strict.execAttrs.eq_def]
+  refine ⟨{ s with ps := { s.ps with polls := s.ps.polls + 1 } }, ?_, rfl, rfl⟩
+  simp [Prog.pollP, Bind.bind, Prog.bind, Prog.run, h]
+
+/-- ... and when lazy evaluation collects the attributes of a statement (shorthand expansions included) -/
+theorem C11_attribute_polls_first_lazy (cfg : Cfg) (fuel ef : Nat) (env : Env) (name : String) (e : Expr)
+    (rest : List AttrE) (acc : List (String × LVal)) (s : Prog.MSt LSt) (h : s.ps.cancelAt = some (s.ps.polls + 1)) :
+    ∃ s', Prog.run (Lazy.lazyAttrs cfg fuel ef env ((name, e) :: rest) acc) s =
+        .fail (.err (.base .cancelled "executing attribute")) s' ∧ s'.graph = s.graph ∧ s'.rest = s.rest := by
+  rw [Lazy.lazyAttrs.eq_def]
+  refine ⟨{ s with ps := { s.ps with polls := s.ps.polls + 1 } }, ?_, rfl, rfl⟩
+  simp [Prog.pollP, Bind.bind, Prog.bind, Prog.run, h]
+
 /-- non-vacuity: a program with three polls, cancelled at the second -/
 example :
     let t : Prog Unit Unit := do Prog.pollP "a"; Prog.withContext (.other "x") (Prog.pollP "b"); Prog.pollP "c"
